@@ -1,6 +1,11 @@
 import Fundraising.Spec.Accept
 import Fundraising.Proofs.ExecLemmas
 import Fundraising.Proofs.DecLemmas
+import Fundraising.Proofs.AcceptBase
+import Fundraising.Proofs.AcceptCreate
+import Fundraising.Proofs.AcceptSmall
+import Fundraising.Proofs.AcceptPlace
+import Fundraising.Proofs.AcceptModify
 /-
   C18 (and the acceptance halves of C06, C11, C12): a message is accepted exactly when its
   documented preconditions hold; a rejected message changes nothing.
@@ -8,20 +13,51 @@ import Fundraising.Proofs.DecLemmas
 -/
 namespace Fundraising
 
+open AcceptAux in
 /-- **accepted exactly under the documented preconditions** — in every well-formed state,
     with no injected fault and no vetoing listener -/
 theorem deliver_ok_iff (st : State) (m : Msg) (hwf : WF st.core) (hnn : BankNonneg st.core)
     (hf : st.ctl.failhook = none) (hk : st.ctl.fault = none) :
     (step st (.msg m)).1.res = .ok ↔ Accept st.core m := by
-  sorry
+  rw [step_msg_ok_iff]
+  have hwf' : WF (ctx0 st).s := hwf
+  have hnn' : BankNonneg (ctx0 st).s := hnn
+  have hf' : (ctx0 st).ctl.failhook = none := hf
+  have hk' : (ctx0 st).ctl.fault = none := hk
+  cases m with
+  | create m =>
+    exact ⟨fun ⟨_, h⟩ => create_accept_of_ok h, fun ha => create_ok_of_accept hf' hk' ha⟩
+  | cancel signer aid =>
+    exact ⟨fun ⟨_, h⟩ => cancel_accept_of_ok h, fun ha => cancel_ok_of_accept hnn' hf' hk' ha⟩
+  | place bidder aid t price denom amt =>
+    cases t with
+    | none => exact ⟨fun ⟨_, h⟩ => place_none_not_ok h, fun ha => ha.elim⟩
+    | some t =>
+      exact ⟨fun ⟨_, h⟩ => place_accept_of_ok hwf' h, fun ha => place_ok_of_accept hwf' hf' hk' ha⟩
+  | modify bidder aid bidId price denom amt =>
+    exact ⟨fun ⟨_, h⟩ => modify_accept_of_ok hwf' hnn' h, fun ha => modify_ok_of_accept hwf' hf' hk' ha⟩
+  | addAllowed aid ab =>
+    exact ⟨fun ⟨_, h⟩ => addAllowed_not_ok hwf.switchOff h, fun ha => ha.elim⟩
+  | updateParams signer p =>
+    exact ⟨fun ⟨_, h⟩ => params_accept_of_ok h, fun ha => params_ok_of_accept ha⟩
 
 /-- **a rejected message leaves all module state and all balances unchanged** (every
     operation kind that runs atomically, for any reason of failure incl. vetoes and faults) -/
 theorem reject_unchanged (st : State) (op : Op)
     (hop : (∃ m, op = .msg m) ∨ (∃ a abs, op = .kadd a abs) ∨ (∃ a u c, op = .kupd a u c))
     (h : (step st op).1.res ≠ .ok) : (step st op).2.core = st.core := by
-  sorry
+  have key : ∀ f : Ctx → M Ctx, (runAtomic st true f).1.res ≠ .ok →
+      (runAtomic st true f).2.core = st.core := by
+    intro f hne
+    rcases runAtomic_cases st true f with ⟨c, _, h2⟩ | ⟨e, _, h2, _⟩
+    · rw [h2] at hne; exact absurd rfl hne
+    · rw [h2]
+  rcases hop with ⟨m, rfl⟩ | ⟨a, abs, rfl⟩ | ⟨a, u, c, rfl⟩
+  · exact key _ h
+  · exact key _ h
+  · exact key _ h
 
+open AcceptAux in
 /-- what an accepted cancel does (C12) -/
 theorem cancel_effect (st : State) (signer : Acc) (aid : Nat) (v : AView)
     (hv : st.core.views[aid]? = some v)
@@ -30,8 +66,21 @@ theorem cancel_effect (st : State) (signer : Acc) (aid : Nat) (v : AView)
     ∃ v', (step st (.msg (.cancel signer aid))).2.core.views[aid]? = some v' ∧
       v'.a.status = .cancelled ∧ (v.a.type = .fixed → v'.a.remaining = 0) ∧
       (step st (.msg (.cancel signer aid))).2.core.bank (.sell aid) v.a.sellDenom = 0 := by
-  sorry
+  obtain ⟨c', hdel⟩ := (step_msg_ok_iff _ _).mp h
+  rw [step_msg_core st _ hdel]
+  obtain ⟨_, v0, hv0, h1, h2, hviews, hbank⟩ := cancel_inv hdel
+  have hvv : v0 = v := Option.some.inj (hv0.symm.trans hv)
+  subst hvv
+  have hlt : aid < st.core.views.length := by
+    have := (List.getElem?_eq_some_iff.mp hv).1
+    exact this
+  rw [hviews]
+  refine ⟨h1.symm, h2, _, List.getElem?_set_self hlt, ?_, ?_, hbank⟩
+  · rfl
+  · intro hty
+    simp [hty]
 
+open AcceptAux in
 /-- what an accepted modification charges (C11): exactly the increase of the required
     reservation, from the owner to the auction's paying escrow -/
 theorem modify_effect (st : State) (bidder : Acc) (aid bidId : Nat) (price : Dec) (denom : Denom)
@@ -45,6 +94,20 @@ theorem modify_effect (st : State) (bidder : Acc) (aid bidId : Nat) (price : Dec
     st'.core.bank (.pay aid) v.a.payDenom = st.core.bank (.pay aid) v.a.payDenom + diff ∧
     st'.core.bank (.user bidder) v.a.payDenom = st.core.bank (.user bidder) v.a.payDenom - diff ∧
     ∃ v', st'.core.views[aid]? = some v' ∧ v'.bids = v.bids.map (fun x => if x.id == bidId then b' else x) := by
-  sorry
+  obtain ⟨c', hdel⟩ := (step_msg_ok_iff _ _).mp h
+  intro st' b' diff
+  have hst' : st'.core = c'.s := step_msg_core st _ hdel
+  have hwf' : WF (ctx0 st).s := hwf
+  obtain ⟨_, v0, hv0, _, _, b0, hb0, _, _, _, _, _, _, D, hD, hD0, _, hbank, hviews⟩ := modify_inv hwf' hdel
+  have hvv : v0 = v := Option.some.inj (hv0.symm.trans hv)
+  subst hvv
+  have hbb : b0 = b := Option.some.inj (hb0.symm.trans hb)
+  subst hbb
+  have hDd : D = diff := hD
+  have hlt : aid < st.core.views.length := (List.getElem?_eq_some_iff.mp hv).1
+  rw [hst', hbank, hviews, hDd]
+  refine ⟨hDd ▸ hD0, ?_, ?_, _, List.getElem?_set_self hlt, rfl⟩
+  · simp [move_apply, ctx0]
+  · simp [move_apply, ctx0]
 
 end Fundraising
